@@ -277,6 +277,7 @@ int main(int argc, char **argv) {
     po.reorder = rs["popts"]["reorder"].asBool();
     po.wideOrdering = rs["popts"]["wideOrdering"].asBool();
     ColoquinteParameters p = vg::genParams(pr, po);
+    if (rs.has("explicit")) p = ColoquinteParameters((int)rs["effort"].asInt(), 7);
     if (rs.has("maxsteps")) {
       p.global.maxNbSteps = (int)rs["maxsteps"].asInt();
       p.global.nbInitialSteps = std::min(p.global.nbInitialSteps, p.global.maxNbSteps - 1);
@@ -294,7 +295,20 @@ int main(int argc, char **argv) {
     long long sd = argi("seed", 1);
     while (std::getline(f, line)) {
       Value b;
-      if (!vj::parseLine(line, b) || !b.has("shape")) continue;
+      if (!vj::parseLine(line, b)) continue;
+      if (b.has("circ")) {
+        // TLC-enumerated small circuit (LegalizeCases): legalize twice with an observing callback
+        long long k = b["run"].asInt();
+        Circuit base = vp::circuitFromJson(b["circ"]);
+        ColoquinteParameters p(1 + (int)(k % 9), 7);
+        Value rs = vt::ev("Reset");
+        rs.set("run", k).set("scen", "leg").set("gseed", k).set("pseed", 0).set("explicit", true).set("effort", 1 + (int)(k % 9));
+        rs.set("withCb", true).set("params", vg::paramsToJson(p)).set("circ", b["circ"]).set("wl", 0);
+        vt::emit(rs);
+        vt::forked((int)k, timeout, errPath, [&] { scenario("leg", (int)k, base, p, true); });
+        continue;
+      }
+      if (!b.has("shape")) continue;
       long long k = b["run"].asInt();
       uint64_t s = (uint64_t)sd * 7919ULL + (uint64_t)b["variant"].asInt() * 104729ULL + std::hash<std::string>()(b["shape"].asStr()) % 1000003ULL + (uint64_t)b["mag"].asInt();
       vg::Rng r(s);
